@@ -60,8 +60,13 @@ var c18CScripts = []c18Script{
 
 func quicvarintAppend(v uint64) []byte { return quicvarint.Append(nil, v) }
 
+// c18AllCScripts: the fixed scripts, then the Content-Length value scripts (c18CLValues).
+func c18AllCScripts() []c18Script {
+	return append(append([]c18Script{}, c18CScripts...), c18CLScripts()...)
+}
+
 func c18CScriptByName(name string) (c18Script, bool) {
-	for _, s := range c18CScripts {
+	for _, s := range c18AllCScripts() {
 		if s.Name == name {
 			return s, true
 		}
@@ -74,7 +79,19 @@ type c18RespModel struct {
 	body    []byte
 	trailer http.Header
 	cl      int
+	clSent  []string // the content-length field values of the final HEADERS frame as written (nil: none)
 	info    int
+}
+
+// agrees: the response declares no Content-Length, or one that equals the body it carries.
+func (m c18RespModel) agrees() bool { return c18CLAgrees(m.clSent, len(m.body)) }
+
+func c18RespHeadersFrameV(idx int, cl []string) c18Frame {
+	fields := [][2]string{{":status", "200"}, {"x-one", fmt.Sprintf("v1-r%d", idx)}}
+	for _, v := range cl {
+		fields = append(fields, [2]string{"content-length", v})
+	}
+	return c18Frame{T: 0x1, P: c18QpackBlock(fields)}
 }
 
 func c18RespHeadersFrame(idx, cl int) c18Frame {
@@ -85,7 +102,7 @@ func c18RespHeadersFrame(idx, cl int) c18Frame {
 	return c18Frame{T: 0x1, P: c18QpackBlock(fields)}
 }
 
-func c18BuildRespFrames(letters string, idx int) c18RespModel {
+func c18BuildRespFrames(letters string, idx int, cl ...string) c18RespModel {
 	var m c18RespModel
 	m.cl = -1
 	nData := strings.Count(letters, "D")
@@ -97,13 +114,19 @@ func c18BuildRespFrames(letters string, idx int) c18RespModel {
 			m.frames = append(m.frames, c18RespHeadersFrame(idx, -1))
 		case 'h':
 			m.cl = nData * c18RawChunk
+			m.clSent = []string{strconv.Itoa(m.cl)}
 			m.frames = append(m.frames, c18RespHeadersFrame(idx, m.cl))
 		case '+':
 			m.cl = nData*c18RawChunk + 5
+			m.clSent = []string{strconv.Itoa(m.cl)}
 			m.frames = append(m.frames, c18RespHeadersFrame(idx, m.cl))
 		case '-':
 			m.cl = nData*c18RawChunk - 5
+			m.clSent = []string{strconv.Itoa(m.cl)}
 			m.frames = append(m.frames, c18RespHeadersFrame(idx, m.cl))
+		case 'v':
+			m.clSent = append([]string{}, cl...)
+			m.frames = append(m.frames, c18RespHeadersFrameV(idx, cl))
 		case 'I':
 			m.info++
 			m.frames = append(m.frames, c18Frame{T: 0x1, P: c18QpackBlock([][2]string{{":status", "103"}, {"link", "</style.css>; rel=preload; as=style"}})})
@@ -222,7 +245,7 @@ func c18RawCRun(t *testing.T, c c18RawCCase) c18RawOutcome {
 		client := &http.Client{Transport: tr}
 		x.request(ctx, client, 0, func() {})
 		co := &x.cli[0]
-		m := c18BuildRespFrames(sc.Frames, 0)
+		m := c18BuildRespFrames(sc.Frames, 0, sc.CL...)
 		if sc.Uni != nil {
 			m = c18BuildRespFrames("HDU", 0)
 		}
@@ -237,6 +260,19 @@ func c18RawCRun(t *testing.T, c c18RawCCase) c18RawOutcome {
 				x.fail("short-body-silent-eof:response", "%s: Response.Body ended in plain io.EOF after %d bytes although the response declared Content-Length %d (silent truncation)", tag, len(co.body), co.declaredCL)
 			}
 		}
+		// ... and against what the server sent (the client may have been handed something else)
+		if co.err == nil && m.clSent != nil {
+			c18CLJudge(x, "response", sc.Name, tag, m.clSent, len(co.body), co.bodyDone, co.bodyErr, co.header["Content-Length"], co.contentLength)
+		}
+		if sc.CL != nil && c.Cut < 0 {
+			// what the client did with the declared value (outcome class; values that are not one
+			// 1*DIGIT string are recorded only)
+			if co.err != nil {
+				note("cl:rejected")
+			} else {
+				note("cl:accepted[cl=%d hdr=%q]", co.contentLength, co.header["Content-Length"])
+			}
+		}
 		permitted := sc.ConnErr == 0
 		if co.err == nil {
 			if co.status != 200 {
@@ -247,7 +283,7 @@ func c18RawCRun(t *testing.T, c c18RawCCase) c18RawOutcome {
 			}
 		}
 		switch {
-		case permitted && c.Cut < 0 && (m.cl < 0 || m.cl == len(m.body)):
+		case permitted && c.Cut < 0 && m.agrees():
 			// a complete, permitted response: everything must arrive
 			switch {
 			case co.err != nil:
@@ -269,7 +305,7 @@ func c18RawCRun(t *testing.T, c c18RawCCase) c18RawOutcome {
 			if co.err == nil && co.bodyDone && co.bodyErr == nil && len(co.body) < len(m.body) {
 				x.fail("rawc:reset-truncation-silent", "%s: the response was aborted after %d of %d body bytes and Response.Body reported plain io.EOF", tag, len(co.body), len(m.body))
 			}
-		case c.Cut >= 0 && c.Act == 2 && (m.cl < 0 || m.cl == len(m.body)):
+		case c.Cut >= 0 && c.Act == 2 && m.agrees():
 			// STOP_SENDING concerns the request direction only: the response is complete
 			if co.err == nil && (co.bodyErr != nil || len(co.body) != len(m.body)) {
 				x.fail("rawc:stop-sending-broke-response", "%s: the server only sent STOP_SENDING for the request; the client read %d of %d response bytes, err=%v", tag, len(co.body), len(m.body), co.bodyErr)
@@ -364,15 +400,16 @@ func c18RawServer(ctx context.Context, x *c18Exec, conn *quic.Conn, sc c18Script
 				return
 			}
 			script, cc := "HDU", c18RawCCase{Split: -1, Cut: -1}
+			var clv []string
 			if first && sc.Uni == nil && sc.Name != "plain" {
-				script, cc = sc.Frames, c
+				script, cc, clv = sc.Frames, c, sc.CL
 			}
 			wasFirst := first
 			first = false
 			wg.Add(1)
 			go func() {
 				defer wg.Done()
-				c18RawServeStream(conn, str, script, cc)
+				c18RawServeStream(conn, str, script, cc, clv)
 				if wasFirst {
 					close(streamVerdict)
 				}
@@ -444,7 +481,7 @@ func c18RequestIdx(b []byte) int {
 	return 0
 }
 
-func c18RawServeStream(conn *quic.Conn, str *quic.Stream, letters string, c c18RawCCase) {
+func c18RawServeStream(conn *quic.Conn, str *quic.Stream, letters string, c c18RawCCase, clv []string) {
 	pause := func() { time.Sleep(2 * time.Millisecond) }
 	idx := 0
 	if c.Cut >= 0 && (c.Act == 2 || c.Act == 3) {
@@ -454,7 +491,7 @@ func c18RawServeStream(conn *quic.Conn, str *quic.Stream, letters string, c c18R
 		req, _ := io.ReadAll(str)
 		idx = c18RequestIdx(req)
 	}
-	m := c18BuildRespFrames(letters, idx)
+	m := c18BuildRespFrames(letters, idx, clv...)
 	var all []byte
 	var bounds []int
 	for _, f := range m.frames {
@@ -493,12 +530,12 @@ func c18RawServeStream(conn *quic.Conn, str *quic.Stream, letters string, c c18R
 func c18RawCCases(e explore.Env) ([]c18RawCCase, string) {
 	var cases []c18RawCCase
 	seed := uint64(e.Seed) + 1
-	for _, sc := range c18CScripts {
+	for _, sc := range c18AllCScripts() {
 		n := 0
 		if sc.Uni != nil {
 			n = len(sc.Uni[len(sc.Uni)-1])
 		} else {
-			for _, f := range c18BuildRespFrames(sc.Frames, 0).frames {
+			for _, f := range c18BuildRespFrames(sc.Frames, 0, sc.CL...).frames {
 				n += len(f.bytes())
 			}
 		}
@@ -517,7 +554,7 @@ func c18RawCCases(e explore.Env) ([]c18RawCCase, string) {
 			}
 		}
 	}
-	for _, sc := range c18CScripts {
+	for _, sc := range c18AllCScripts() {
 		if sc.Uni != nil || sc.ConnErr != 0 {
 			continue
 		}
@@ -529,5 +566,5 @@ func c18RawCCases(e explore.Env) ([]c18RawCCase, string) {
 			}
 		}
 	}
-	return cases, fmt.Sprintf("scripted raw QUIC server against the real Transport: %d scripts (response streams of 3 frames from {HEADERS, 103 HEADERS, DATA, unknown type %#x, trailers, SETTINGS, reserved 0x2/0x6/0x8/0x9, Content-Length exact / +5 / -5}; unidirectional streams: unknown types, duplicate control / QPACK streams, push stream, malformed control streams, GOAWAY with a server stream id), each written in one piece and split into two writes at every byte offset; for the permitted response scripts additionally RESET_STREAM / STOP_SENDING / both / connection close at every frame boundary x Transport.Logger {nil,set}", len(c18CScripts), c18UnknownType)
+	return cases, fmt.Sprintf("scripted raw QUIC server against the real Transport: %d scripts (response streams of 3 frames from {HEADERS, 103 HEADERS, DATA, unknown type %#x, trailers, SETTINGS, reserved 0x2/0x6/0x8/0x9, Content-Length exact / +5 / -5, or one of the %d content-length field value lists %v written verbatim in front of one 20-byte DATA frame}; unidirectional streams: unknown types, duplicate control / QPACK streams, push stream, malformed control streams, GOAWAY with a server stream id), each written in one piece and split into two writes at every byte offset; for the permitted response scripts additionally RESET_STREAM / STOP_SENDING / both / connection close at every frame boundary x Transport.Logger {nil,set}; the Content-Length clause is judged against the value the server SENT whenever every content-length field value is the same 1*DIGIT string, other values are recorded only", len(c18AllCScripts()), c18UnknownType, len(c18CLValues), c18CLNames())
 }
